@@ -224,6 +224,11 @@ def join (s : State) (id : Nat) : State × Res :=
       else (s2, r)
     else (s1, r)
 
+/-- D22: the completion callback of an *earlier* auto-join group runs late (its goroutine was still waiting for its
+turn) and walks the *current* player list: everybody not yet seated-in is joined through `PlayerJoin`.  An explicit
+event, placed where the harness observed it. -/
+def autoJoinStale (s : State) : State := s.players.foldl (fun acc p => (join acc p.id).1) s
+
 /-- `PlayerRedeemChips` -/
 def redeem (s : State) (id : Nat) (chips : Int) : State × Res :=
   match findPlayerIdx s id with
@@ -562,6 +567,7 @@ inductive Event
   | pause | close | release | start
   | setup (gc : Nat) (parts : List (Nat × Nat))
   | finish (id : Nat)
+  | autojoin                                          -- a stale auto-join completion runs (D22)
   | fire (choice : Option Int) (createOk : Bool)      -- the open-game gate fires
   | settle (result : List (Nat × Int))               -- the backend closed the hand with this result
   | continue (expired : Bool)                         -- continueGame and its delayed handler
@@ -579,6 +585,7 @@ def step (s : State) : Event → State
   | .start => start s
   | .setup gc ps => setup s gc ps
   | .finish id => (finish s id).1
+  | .autojoin => autoJoinStale s
   | .fire ch ok => (gateFire s ch ok).1
   | .settle r => (settle s r).1
   | .continue e => (continueGame s e).1
